@@ -73,4 +73,6 @@ func c10r910(p *model.Prog, r *report.Result) {
 	w6DeleteSlot(p, r, "C10.R11")
 	w6VideoBoundaryKey(p, r, "C10.R12")
 	w7TsFileName(p, r, "C10.R13")
+	w8CacheResetWithRefill(p, r, "C10.R14")
+	w8TsNameClock(p, r, "C10.R15")
 }
